@@ -928,6 +928,12 @@ class Transport(threading.Thread, ClosingContextManager):
         self.stop_thread()
         for chan in list(self._channels.values()):
             chan._unlink()
+        # wake up anybody blocked in accept()
+        self.lock.acquire()
+        try:
+            self.server_accept_cv.notify_all()
+        finally:
+            self.lock.release()
         self.sock.close()
 
     def get_remote_server_key(self):
@@ -1321,6 +1327,9 @@ class Transport(threading.Thread, ClosingContextManager):
         try:
             if len(self.server_accepts) > 0:
                 chan = self.server_accepts.pop(0)
+            elif not self.active:
+                # nothing can arrive any more: don't wait for it
+                chan = None
             else:
                 self.server_accept_cv.wait(timeout)
                 if len(self.server_accepts) > 0:
